@@ -107,6 +107,10 @@ pub fn silence_panics() {
         if text.contains("unsafe precondition") || text.contains("misaligned pointer") || text.contains("null pointer dereference") {
             // non-unwinding panics raised by std's debug checks of unsafe preconditions: the process aborts
             eprintln!("NON-UNWINDING PANIC (process aborts): {text}");
+            // which konst function and which engine function were running (the case itself cannot be printed from here)
+            let bt = format!("{}", std::backtrace::Backtrace::force_capture());
+            let keep: Vec<&str> = bt.lines().filter(|l| l.contains("konst") || l.contains("kvh") || l.contains("/verif/") || l.contains("/repo/")).take(24).collect();
+            eprintln!("backtrace (konst / engine frames):\n{}", keep.join("\n"));
         } else if QUIET.with(|q| q.get()) == 0 {
             default(info);
         }
